@@ -143,6 +143,13 @@ def projection_case(ctx, idx, rng):
         ref = np.einsum('txa,stvw,syb,awb->xvy', psi.A[i + 1], H.A[i + 1], psi.A[i + 1].conj(), ref)
         refsR[i] = ref
     ctx.ok('right-blocks.count', len(BR) == L, f'{len(BR)} blocks for L={L}', detail)
+    if idx % 3 == 0 and len(BR) == L:
+        def later(BR=BR, refsR=refsR, an=an, H=H, L=L):
+            for i in range(L):
+                if BR[i].shape == refsR[i].shape:
+                    sc_i = float(np.prod([an[j] ** 2 * max(np.linalg.norm(H.A[j]), 1e-300) for j in range(i + 1, L)])) if i < L - 1 else 1.0
+                    _close(ctx, 'right-blocks.still-valid-after-later-calls', BR[i], refsR[i], sc_i, None)
+        ctx.hold(later)
     for i in range(L):
         if BR[i].shape != refsR[i].shape:
             ctx.ok('right-blocks.shape', False, f'block {i} shape {BR[i].shape} != {refsR[i].shape}', detail)
